@@ -236,6 +236,11 @@ Sem.methods["release"] = amethod("Semaphore.release", {"self": Sem, "*args": Non
                                  raises={"ValueError": lambda c, self, exc, **k: True}, exact_raises=True)
 
 
+Sem.methods["__enter__"] = amethod("Semaphore.__enter__", {"self": Sem}, doc="with lock: a BLOCKING acquire", result=BOOL,
+                                   emits=lambda c, ctx, self, **k: ctx.emit("blocking-acquire", self), has_events=True)
+Sem.methods["__exit__"] = amethod("Semaphore.__exit__", {"self": Sem, "*args": None}, emits=lambda c, ctx, self, **k: ctx.emit("semaphore-release", self), has_events=True)
+
+
 def install_runtime_types(E):
     E.shared_types["threading.Semaphore"] = Sem
     E.shared_types.update({"threading.Event": TEvent, "asyncio.Event": AEvent, "asyncio.Loop": ALoop, "asyncio.Future": Future, "threading.Lock": Lock})
